@@ -677,6 +677,952 @@ static void csr_grfile_run(const Ctx& c) {
 }
 
 // ===========================================================================
+// LC_CSR_CSC_Graph: CSR plus in-edges built by constructIncomingEdges()
+// ===========================================================================
+template <class E, class G>
+static Adj csc_dump_in(const std::string& K, G& g, const Ctx& c) {
+  const Ref& r = c.r;
+  Adj a(r.n);
+  for (uint64_t u = 0; u < r.n; ++u) {
+    uint64_t seen = 0;
+    for (auto e = g.in_edge_begin(u), ee = g.in_edge_end(u); e != ee; ++e) {
+      if (++seen > r.m + 4)
+        fail(K + ":in-edge-range-runaway", "%s: node %llu", c.str().c_str(),
+             (unsigned long long)u);
+      uint64_t s = g.getInEdgeDst(e);
+      if (s >= r.n)
+        fail(K + ":in-edge-from-unknown-node", "%s: node %llu <- %llu",
+             c.str().c_str(), (unsigned long long)u, (unsigned long long)s);
+      Canon d = Canon{{0, 0, 0}};
+      if constexpr (!std::is_void<E>::value)
+        d = EV<E>::canon(g.getInEdgeData(e));
+      a[u].push_back(DE(s, d));
+    }
+    uint64_t k = 0;
+    for (auto e : g.in_edges(u)) {
+      (void)e;
+      ++k;
+    }
+    if (g.getInDegree(u) != seen || k != seen)
+      fail(K + ":getInDegree-wrong", "%s: node %llu: getInDegree=%llu, "
+                                     "in_edges() yields %llu, iterators %llu",
+           c.str().c_str(), (unsigned long long)u,
+           (unsigned long long)g.getInDegree(u), (unsigned long long)k,
+           (unsigned long long)seen);
+  }
+  return a;
+}
+
+template <class E, class G>
+static void csc_checks(const std::string& L, const std::string& builder, G& g,
+                       const Ctx& c, bool views) {
+  std::string ctx = c.str();
+  std::string K   = L + ":" + builder;
+  csr_static<E>(K, g, c); // the out side is a complete LC_CSR_Graph
+  Adj wantIn = expect_adj<E>(c.r.tcsr);
+  compare_adj(K, "in-edges", csc_dump_in<E>(K, g, c), wantIn, false, ctx);
+  if (!views)
+    return;
+  // sortInEdgesByDst is sequential: try it in a child first
+  std::string d = dies_in_child([&]() {
+    for (uint64_t u = 0; u < c.r.n; ++u)
+      g.sortInEdgesByDst(u);
+  });
+  if (!d.empty())
+    fail(L + ":sortInEdgesByDst:crash", "%s: %s", ctx.c_str(), d.c_str());
+  for (uint64_t u = 0; u < c.r.n; ++u)
+    g.sortInEdgesByDst(u);
+  Adj got = csc_dump_in<E>(L + ":sortInEdgesByDst", g, c);
+  compare_adj(L + ":sortInEdgesByDst", "in-edges", got, wantIn, false, ctx);
+  check_sorted_by_dst(L + ":sortInEdgesByDst", got, ctx);
+  g.sortAllInEdgesByDst();
+  got = csc_dump_in<E>(L + ":sortAllInEdgesByDst", g, c);
+  compare_adj(L + ":sortAllInEdgesByDst", "in-edges", got, wantIn, false, ctx);
+  check_sorted_by_dst(L + ":sortAllInEdgesByDst", got, ctx);
+  // the out side must be untouched by in-edge sorting
+  compare_adj(L + ":sortInEdgesByDst", "out-edges-afterwards",
+              csr_dump<E>(L + ":sortInEdgesByDst", g, c),
+              expect_adj<E>(c.r.csr), true, ctx);
+}
+
+template <class E, class G>
+static void csc_layout(const std::string& L, const Ctx& c, Files<E>& files,
+                       bool full) {
+  {
+    G g;
+    gg::readGraph(g, files.fwd(1));
+    g.constructIncomingEdges();
+    csc_checks<E>(L, "readGraph+constructIncomingEdges", g, c, full);
+  }
+  if (!full)
+    return;
+  if (usable(files, 2)) {
+    G g;
+    gg::readGraph(g, files.fwd(2));
+    g.constructIncomingEdges();
+    csc_checks<E>(L, "readGraph-v2+constructIncomingEdges", g, c, false);
+  }
+  {
+    // readAndConstructBiGraphFromGRFile = readGraphFromGRFile (which has its
+    // own case and its own findings) + constructIncomingEdges: only where the
+    // former survives.
+    const std::string& path = files.fwd(1);
+    std::string d           = dies_in_child([&]() {
+      gg::LC_CSR_Graph<int, E> g0;
+      g0.readGraphFromGRFile(path);
+    });
+    if (d.empty()) {
+      G g;
+      g.readAndConstructBiGraphFromGRFile(path);
+      csc_checks<E>(L, "readAndConstructBiGraphFromGRFile", g, c, false);
+    }
+  }
+}
+
+template <class E>
+static void csc_run(const Ctx& c) {
+  Files<E> files(c.r);
+  bool full = full_programme(c);
+  csc_layout<E, gg::LC_CSR_CSC_Graph<int, E, false>>(
+      "LC_CSR_CSC_Graph<in-data-by-ref>", c, files, full);
+  csc_layout<E, gg::LC_CSR_CSC_Graph<int, E, true>>(
+      "LC_CSR_CSC_Graph<in-data-by-value>", c, files, full);
+  if (full)
+    csc_layout<E, gg::LC_CSR_CSC_Graph<int, E, false, false, true>>(
+        "LC_CSR_CSC_Graph<in-data-by-ref,numa>", c, files, false);
+  finish_run(c, expect_adj<E>(c.r.tcsr));
+}
+
+// ===========================================================================
+// LC_InOut_Graph over LC_CSR_Graph and LC_Linear_Graph (in-edges come from a
+// second file holding the transposed graph, or alias the out-edges when the
+// graph is declared symmetric by giving one file)
+// ===========================================================================
+template <class E, class G>
+static Adj inout_dump_in(const std::string& K, G& g, const NodeMap<G>& nm,
+                         const Ctx& c) {
+  const Ref& r = c.r;
+  Adj a(r.n);
+  for (uint64_t u = 0; u < r.n; ++u) {
+    auto n        = nm.nodes[u];
+    uint64_t seen = 0;
+    for (auto e = g.in_edge_begin(n), ee = g.in_edge_end(n); e != ee; ++e) {
+      if (++seen > r.m + 4)
+        fail(K + ":in-edge-range-runaway", "%s: node %llu", c.str().c_str(),
+             (unsigned long long)u);
+      uint64_t s = nm.id(K, g.getInEdgeDst(e));
+      Canon d    = Canon{{0, 0, 0}};
+      if constexpr (!std::is_void<E>::value)
+        d = EV<E>::canon(g.getInEdgeData(e));
+      a[u].push_back(DE(s, d));
+    }
+    uint64_t k = 0;
+    for (auto e : g.in_edges(n)) {
+      (void)e;
+      ++k;
+    }
+    if (k != seen)
+      fail(K + ":in_edges()-range-wrong-length", "%s: node %llu: %llu vs %llu",
+           c.str().c_str(), (unsigned long long)u, (unsigned long long)k,
+           (unsigned long long)seen);
+  }
+  return a;
+}
+
+static bool symmetric_with_data(const Ref& r, bool void_data) {
+  if (!void_data) { // data is injective: only self loops are their own mirror
+    for (auto& e : r.el)
+      if (e.first != e.second)
+        return false;
+    return true;
+  }
+  std::vector<grf::Edge> a(r.el), b;
+  for (auto& e : r.el)
+    b.push_back(grf::Edge(e.second, e.first));
+  std::sort(a.begin(), a.end());
+  std::sort(b.begin(), b.end());
+  return a == b;
+}
+
+template <class E, class G>
+static void inout_csr_layout(const std::string& L, const Ctx& c,
+                             Files<E>& files, bool full) {
+  std::string ctx = c.str();
+  Adj wantIn      = expect_adj<E>(c.r.tcsr);
+  Adj wantOut     = expect_adj<E>(c.r.csr);
+  {
+    std::string K = L + ":readGraph(file,transpose)";
+    G g;
+    gg::readGraph(g, files.fwd(1), files.tr(1));
+    csr_static<E>(K, g, c);
+    NodeMap<G> nm = positional_map(K, g, c.r.n, ctx);
+    compare_adj(K, "in-edges", inout_dump_in<E>(K, g, nm, c), wantIn, false,
+                ctx);
+    if (full) {
+      if constexpr (!std::is_void<E>::value) {
+        std::string V = L + ":sortInEdgesByEdgeData";
+        for (uint64_t u = 0; u < c.r.n; ++u)
+          g.sortInEdgesByEdgeData(u, typename EV<E>::Less());
+        Adj got = inout_dump_in<E>(V, g, nm, c);
+        compare_adj(V, "in-edges", got, wantIn, false, ctx);
+        check_sorted_by_data(V, got, ctx);
+      }
+      {
+        std::string V = L + ":sortInEdgesByDst";
+        for (uint64_t u = 0; u < c.r.n; ++u)
+          g.sortInEdgesByDst(u);
+        Adj got = inout_dump_in<E>(V, g, nm, c);
+        compare_adj(V, "in-edges", got, wantIn, false, ctx);
+        check_sorted_by_dst(V, got, ctx);
+      }
+      if constexpr (!std::is_void<E>::value)
+        for (uint64_t u = 0; u < c.r.n; ++u)
+          g.sortInEdgesByEdgeData(u, typename EV<E>::Less());
+      {
+        std::string V = L + ":sortAllInEdgesByDst";
+        g.sortAllInEdgesByDst();
+        Adj got = inout_dump_in<E>(V, g, nm, c);
+        compare_adj(V, "in-edges", got, wantIn, false, ctx);
+        check_sorted_by_dst(V, got, ctx);
+        compare_adj(V, "out-edges-afterwards", csr_dump<E>(V, g, c), wantOut,
+                    true, ctx);
+      }
+    }
+  }
+  if (!full)
+    return;
+  if (usable(files, 2) && usable(files, 2, true)) {
+    std::string K = L + ":readGraph-v2(file,transpose)";
+    G g;
+    gg::readGraph(g, files.fwd(2), files.tr(2));
+    csr_static<E>(K, g, c, true, false);
+    NodeMap<G> nm = positional_map(K, g, c.r.n, ctx);
+    compare_adj(K, "in-edges", inout_dump_in<E>(K, g, nm, c), wantIn, false,
+                ctx);
+  }
+  if (symmetric_with_data(c.r, std::is_void<E>::value)) {
+    std::string K = L + ":readGraph(symmetric-file)";
+    G g;
+    gg::readGraph(g, files.fwd(1));
+    csr_static<E>(K, g, c, true, false);
+    NodeMap<G> nm = positional_map(K, g, c.r.n, ctx);
+    compare_adj(K, "in-edges", inout_dump_in<E>(K, g, nm, c), wantIn, false,
+                ctx);
+  }
+}
+
+// ===========================================================================
+// Pointer layouts: LC_Linear_Graph, LC_InlineEdge_Graph (ids are positions in
+// begin()..end(); out-edges compared as multisets)
+// ===========================================================================
+template <class E, class G>
+static Adj ptr_static(const std::string& K, G& g, const Ctx& c,
+                      NodeMap<G>* nm_out = nullptr) {
+  const Ref& r    = c.r;
+  std::string ctx = c.str();
+  if (g.size() != r.n)
+    fail(K + ":wrong-node-count", "%s: size()=%zu", ctx.c_str(), g.size());
+  if (g.sizeEdges() != r.m)
+    fail(K + ":wrong-edge-count", "%s: sizeEdges()=%zu", ctx.c_str(),
+         g.sizeEdges());
+  NodeMap<G> nm = positional_map(K, g, r.n, ctx);
+  Adj got       = dump_out<E>(K, g, nm, r.m);
+  compare_adj(K, "out-edges", got, expect_adj<E>(r.csr), false, ctx);
+  for (uint64_t u = 0; u < r.n; ++u) {
+    uint64_t k1 = 0, k2 = 0;
+    for (auto e : g.edges(nm.nodes[u])) {
+      (void)e;
+      ++k1;
+    }
+    for (auto e : g.out_edges(nm.nodes[u])) {
+      (void)e;
+      ++k2;
+    }
+    if (k1 != r.outdeg(u) || k2 != r.outdeg(u))
+      fail(K + ":edges()-range-wrong-length", "%s: node %llu: %llu/%llu",
+           ctx.c_str(), (unsigned long long)u, (unsigned long long)k1,
+           (unsigned long long)k2);
+  }
+  check_local_ranges(K, g, nm, ctx);
+  if (nm_out)
+    *nm_out = nm;
+  return got;
+}
+
+template <class E, class G>
+static void linear_layout(const std::string& L, const Ctx& c, Files<E>& files,
+                          bool full, Adj* observed) {
+  std::string ctx = c.str();
+  {
+    G g;
+    gg::readGraph(g, files.fwd(1));
+    NodeMap<G> nm;
+    Adj a = ptr_static<E>(L + ":readGraph", g, c, &nm);
+    if (observed)
+      *observed = a;
+    if constexpr (!std::is_void<E>::value) {
+      if (full) {
+        std::string V = L + ":sortEdgesByEdgeData";
+        for (uint64_t u = 0; u < c.r.n; ++u)
+          g.sortEdgesByEdgeData(nm.nodes[u], typename EV<E>::Less());
+        Adj got = dump_out<E>(V, g, nm, c.r.m);
+        compare_adj(V, "out-edges", got, expect_adj<E>(c.r.csr), false, ctx);
+        check_sorted_by_data(V, got, ctx);
+      }
+    }
+  }
+  if (full && usable(files, 2)) {
+    G g;
+    gg::readGraph(g, files.fwd(2));
+    ptr_static<E>(L + ":readGraph-v2", g, c);
+  }
+}
+
+template <class E, class G>
+static void inout_linear_layout(const std::string& L, const Ctx& c,
+                                Files<E>& files) {
+  std::string ctx = c.str();
+  std::string K   = L + ":readGraph(file,transpose)";
+  G g;
+  gg::readGraph(g, files.fwd(1), files.tr(1));
+  NodeMap<G> nm;
+  ptr_static<E>(K, g, c, &nm);
+  compare_adj(K, "in-edges", inout_dump_in<E>(K, g, nm, c),
+              expect_adj<E>(c.r.tcsr), false, ctx);
+}
+
+template <class E>
+static void inout_run(const Ctx& c) {
+  Files<E> files(c.r);
+  bool full = full_programme(c);
+  typedef gg::LC_CSR_Graph<int, E> C0;
+  inout_csr_layout<E, gg::LC_InOut_Graph<C0>>("LC_InOut_Graph<LC_CSR_Graph>",
+                                              c, files, full);
+  if (full) {
+    inout_csr_layout<
+        E, gg::LC_InOut_Graph<typename C0::template with_numa_alloc<true>::type>>(
+        "LC_InOut_Graph<LC_CSR_Graph<numa>>", c, files, false);
+    inout_linear_layout<E, gg::LC_InOut_Graph<gg::LC_Linear_Graph<int, E>>>(
+        "LC_InOut_Graph<LC_Linear_Graph>", c, files);
+  }
+  finish_run(c, expect_adj<E>(c.r.tcsr));
+}
+
+template <class E>
+static void linear_run(const Ctx& c) {
+  Files<E> files(c.r);
+  bool full = full_programme(c);
+  Adj obs;
+  typedef gg::LC_Linear_Graph<int, E> G0;
+  linear_layout<E, G0>("LC_Linear_Graph", c, files, full, &obs);
+  linear_layout<E, typename G0::template with_numa_alloc<true>::type>(
+      "LC_Linear_Graph<numa>", c, files, false, nullptr);
+  linear_layout<E, typename G0::template with_no_lockable<true>::type>(
+      "LC_Linear_Graph<no_lockable>", c, files, false, nullptr);
+  if (full)
+    linear_layout<E,
+                  typename G0::template with_out_of_line_lockable<true>::type>(
+        "LC_Linear_Graph<out_of_line_lockable>", c, files, false, nullptr);
+  finish_run(c, obs);
+}
+
+// --- LC_InlineEdge_Graph ---------------------------------------------------
+// readGraph() needs constructFrom(FileGraph&, tid, total, readUnweighted); the
+// compile-probe case reports that LC_InlineEdge_Graph does not have it.  Until
+// it has, the graph is built the way readGraphDispatch would: allocateFrom +
+// on_each(constructFrom(f, tid, total)).
+template <class G, class = void>
+struct has_construct4 : std::false_type {};
+template <class G>
+struct has_construct4<
+    G, std::void_t<decltype(std::declval<G&>().constructFrom(
+           std::declval<gg::FileGraph&>(), 0u, 1u, false))>> : std::true_type {
+};
+
+template <class E, class G>
+static void inline_build(G& g, const std::string& path) {
+  if constexpr (has_construct4<G>::value) {
+    gg::readGraph(g, path);
+  } else {
+    gg::FileGraph f;
+    f.fromFileInterleaved<E>(path);
+    g.allocateFrom(f);
+    galois::on_each(
+        [&](unsigned tid, unsigned total) { g.constructFrom(f, tid, total); });
+  }
+}
+
+template <class E, class G>
+static void inline_layout(const std::string& L, const Ctx& c, Files<E>& files,
+                          bool v2, Adj* observed) {
+  const char* b = has_construct4<G>::value ? ":readGraph" : ":constructFrom";
+  {
+    G g;
+    inline_build<E>(g, files.fwd(1));
+    Adj a = ptr_static<E>(L + b, g, c);
+    if (observed)
+      *observed = a;
+  }
+  if (v2 && usable(files, 2)) {
+    G g;
+    inline_build<E>(g, files.fwd(2));
+    ptr_static<E>(L + b + "-v2", g, c);
+  }
+}
+
+template <class E>
+static void inline_run(const Ctx& c) {
+  Files<E> files(c.r);
+  bool full = full_programme(c);
+  Adj obs;
+  typedef gg::LC_InlineEdge_Graph<int, E> G0;
+  typedef typename G0::template with_compressed_node_ptr<true>::type G1;
+  inline_layout<E, G0>("LC_InlineEdge_Graph", c, files, full, &obs);
+  inline_layout<E, G1>("LC_InlineEdge_Graph<compressed_node_ptr>", c, files,
+                       full, nullptr);
+  inline_layout<E, typename G0::template with_numa_alloc<true>::type>(
+      "LC_InlineEdge_Graph<numa>", c, files, false, nullptr);
+  if (full) {
+    inline_layout<E, typename G1::template with_numa_alloc<true>::type>(
+        "LC_InlineEdge_Graph<compressed_node_ptr,numa>", c, files, false,
+        nullptr);
+    inline_layout<E, typename G0::template with_no_lockable<true>::type>(
+        "LC_InlineEdge_Graph<no_lockable>", c, files, false, nullptr);
+    inline_layout<E,
+                  typename G0::template with_out_of_line_lockable<true>::type>(
+        "LC_InlineEdge_Graph<out_of_line_lockable>", c, files, false, nullptr);
+  }
+  finish_run(c, obs);
+}
+
+// ===========================================================================
+// LC_Morph_Graph.  Nodes are opaque pointers kept in a per-thread bag, so the
+// node iterator says nothing about file ids.
+//  * readGraph(): identity is RECOVERED -- from the edge data when there is
+//    some (edge #i of the list is the only one with value f(i), so its end
+//    points must be the i-th pair), by trying all n! assignments when there is
+//    none and n <= 3, and only up to colour refinement (a necessary condition
+//    for isomorphism) for the data-less structured family.
+//  * the documented two-phase builder allocateFrom / constructNodesFrom /
+//    constructEdgesFrom with the aux array in the harness's hands, and
+//    createNode + addMultiEdge: identity is known exactly.
+// LC_Morph_Graph::createNode never returns the pages that hold the edges
+// ("FIXME: this seems to leak"); a worker builds ~10^5 graphs, so the harness
+// hands those pages back to the page pool after each graph is destroyed.
+// ===========================================================================
+template <class G>
+struct MorphBox {
+  std::unique_ptr<G> g;
+  MorphBox() : g(new G()) {}
+  ~MorphBox() {
+    std::vector<void*> blocks;
+    unsigned maxT = galois::substrate::getThreadPool().getMaxThreads();
+    for (unsigned t = 0; t < maxT; ++t)
+      for (auto* h = *g->edgesL.getRemote(t); h; h = h->next)
+        blocks.push_back((void*)h);
+    g.reset();
+    for (void* b : blocks)
+      galois::runtime::pagePoolFree(b);
+  }
+  G& operator*() { return *g; }
+};
+
+template <class E, class G>
+static void morph_checks(const std::string& K, G& g, const NodeMap<G>& nm,
+                         const Ctx& c) {
+  const Ref& r    = c.r;
+  std::string ctx = c.str();
+  // every node yielded exactly once by begin()..end()
+  {
+    std::map<typename G::GraphNode, int> seen;
+    uint64_t k = 0;
+    for (auto it = g.begin(), e = g.end(); it != e && k <= r.n + 4; ++it, ++k)
+      seen[*it]++;
+    if (k != r.n)
+      fail(K + ":wrong-node-count", "%s: node iterator yields %llu nodes",
+           ctx.c_str(), (unsigned long long)k);
+    for (auto n : nm.nodes)
+      if (seen[n] != 1)
+        fail(K + ":node-iterator-not-exact",
+             "%s: a constructed node is yielded %d times", ctx.c_str(),
+             seen[n]);
+  }
+  Adj got = dump_out<E>(K, g, nm, r.m);
+  compare_adj(K, "out-edges", got, expect_adj<E>(r.csr), false, ctx);
+  for (uint64_t u = 0; u < r.n; ++u) {
+    uint64_t k1 = 0, k2 = 0;
+    for (auto e : g.edges(nm.nodes[u])) {
+      (void)e;
+      ++k1;
+    }
+    for (auto e : g.out_edges(nm.nodes[u])) {
+      (void)e;
+      ++k2;
+    }
+    if (k1 != r.outdeg(u) || k2 != r.outdeg(u))
+      fail(K + ":edges()-range-wrong-length", "%s: node %llu: %llu/%llu",
+           ctx.c_str(), (unsigned long long)u, (unsigned long long)k1,
+           (unsigned long long)k2);
+  }
+  for (auto& q : query_pairs(r)) {
+    auto s = nm.nodes[q.first];
+    auto e = g.findEdge(s, nm.nodes[q.second]);
+    bool in  = e >= g.edge_begin(s) && e < g.edge_end(s);
+    bool hit = in && g.getEdgeDst(e) == nm.nodes[q.second];
+    bool ok  = has_edge(r, q.first, q.second) ? hit : e == g.edge_end(s);
+    if (!ok)
+      fail(K + ":findEdge-wrong-answer", "%s: findEdge(%llu,%llu)",
+           ctx.c_str(), (unsigned long long)q.first,
+           (unsigned long long)q.second);
+  }
+  check_local_ranges(K, g, nm, ctx);
+}
+
+// colour refinement on (out-)adjacency given as id lists
+static std::vector<uint64_t> wl_colours(const std::vector<std::vector<uint64_t>>& out) {
+  size_t n = out.size();
+  std::vector<std::vector<uint64_t>> in(n);
+  for (size_t u = 0; u < n; ++u)
+    for (auto v : out[u])
+      in[v].push_back(u);
+  std::vector<uint64_t> col(n);
+  for (size_t u = 0; u < n; ++u)
+    col[u] = sx::mix(out[u].size(), in[u].size());
+  for (int round = 0; round < 4; ++round) {
+    std::vector<uint64_t> nc(n);
+    for (size_t u = 0; u < n; ++u) {
+      std::vector<uint64_t> a, b;
+      for (auto v : out[u])
+        a.push_back(col[v]);
+      for (auto v : in[u])
+        b.push_back(col[v]);
+      std::sort(a.begin(), a.end());
+      std::sort(b.begin(), b.end());
+      uint64_t h = col[u];
+      for (auto x : a)
+        h = sx::mix(h, x);
+      h = sx::mix(h, 0xabcdef);
+      for (auto x : b)
+        h = sx::mix(h, x);
+      nc[u] = h;
+    }
+    col.swap(nc);
+  }
+  std::sort(col.begin(), col.end());
+  return col;
+}
+
+// Returns false if only the isomorphism-invariant check was possible.
+template <class E, class G>
+static bool morph_recover(const std::string& K, G& g, const Ctx& c,
+                          NodeMap<G>& nm) {
+  typedef typename G::GraphNode GN;
+  const Ref& r    = c.r;
+  std::string ctx = c.str();
+  std::vector<GN> L;
+  {
+    uint64_t k = 0;
+    for (auto it = g.begin(), e = g.end(); it != e && k <= r.n + 4; ++it, ++k)
+      L.push_back(*it);
+    if (L.size() != r.n)
+      fail(K + ":wrong-node-count", "%s: node iterator yields %zu nodes",
+           ctx.c_str(), L.size());
+    std::set<GN> uniq(L.begin(), L.end());
+    if (uniq.size() != L.size())
+      fail(K + ":node-yielded-twice", "%s", ctx.c_str());
+  }
+  std::vector<GN> byId(r.n, nullptr);
+  if constexpr (!std::is_void<E>::value) {
+    std::map<Canon, uint64_t> byData;
+    for (uint64_t i = 0; i < r.m; ++i)
+      byData[EV<E>::canon_of(i)] = i;
+    std::map<GN, uint64_t> idOf;
+    auto bind = [&](GN p, uint64_t id) {
+      auto it = idOf.find(p);
+      if (it != idOf.end() && it->second != id)
+        fail(K + ":inconsistent-node-identity",
+             "%s: the edge data place one node at file ids %llu and %llu",
+             ctx.c_str(), (unsigned long long)it->second,
+             (unsigned long long)id);
+      if (byId[id] && byId[id] != p)
+        fail(K + ":inconsistent-node-identity",
+             "%s: the edge data place two nodes at file id %llu", ctx.c_str(),
+             (unsigned long long)id);
+      idOf[p]  = id;
+      byId[id] = p;
+    };
+    uint64_t total = 0;
+    for (GN p : L)
+      for (auto e = g.edge_begin(p), ee = g.edge_end(p); e != ee; ++e) {
+        if (++total > r.m)
+          fail(K + ":out-edges-wrong-degree", "%s: more than %llu edges",
+               ctx.c_str(), (unsigned long long)r.m);
+        auto f = byData.find(EV<E>::canon(g.getEdgeData(e)));
+        if (f == byData.end())
+          fail(K + ":out-edges-wrong-edge-data",
+               "%s: an edge carries data that no edge of the file has",
+               ctx.c_str());
+        bind(p, r.el[f->second].first);
+        bind(g.getEdgeDst(e), r.el[f->second].second);
+      }
+    size_t next = 0; // isolated nodes are interchangeable
+    for (GN p : L)
+      if (!idOf.count(p)) {
+        while (next < r.n && byId[next])
+          ++next;
+        if (next == r.n)
+          fail(K + ":inconsistent-node-identity", "%s", ctx.c_str());
+        byId[next] = p;
+      }
+    for (uint64_t u = 0; u < r.n; ++u)
+      nm.add(K, byId[u]);
+    return true;
+  } else {
+    if (r.n <= 4) {
+      std::vector<size_t> perm(r.n);
+      for (size_t i = 0; i < r.n; ++i)
+        perm[i] = i;
+      Adj want = expect_adj<E>(r.csr);
+      for (auto& l : want)
+        std::sort(l.begin(), l.end());
+      do {
+        NodeMap<G> cand;
+        for (size_t i = 0; i < r.n; ++i)
+          cand.add(K, L[perm[i]]);
+        bool ok = true;
+        for (size_t u = 0; ok && u < r.n; ++u) {
+          std::vector<DE> l;
+          uint64_t seen = 0;
+          for (auto e = g.edge_begin(cand.nodes[u]),
+                    ee = g.edge_end(cand.nodes[u]);
+               ok && e != ee; ++e) {
+            auto f = cand.ids.find(g.getEdgeDst(e));
+            if (f == cand.ids.end() || ++seen > r.m)
+              ok = false;
+            else
+              l.push_back(DE(f->second, Canon{{0, 0, 0}}));
+          }
+          std::sort(l.begin(), l.end());
+          ok = ok && l == want[u];
+        }
+        if (ok) {
+          nm = cand;
+          return true;
+        }
+      } while (std::next_permutation(perm.begin(), perm.end()));
+      fail(K + ":not-isomorphic-to-input",
+           "%s: no assignment of the %llu nodes to file ids reproduces the "
+           "input",
+           ctx.c_str(), (unsigned long long)r.n);
+    }
+    // large and data-less: necessary condition only
+    std::map<GN, uint64_t> pos;
+    for (size_t i = 0; i < L.size(); ++i)
+      pos[L[i]] = i;
+    std::vector<std::vector<uint64_t>> got(r.n), want(r.n);
+    uint64_t total = 0;
+    for (size_t i = 0; i < L.size(); ++i)
+      for (auto e = g.edge_begin(L[i]), ee = g.edge_end(L[i]); e != ee; ++e) {
+        auto f = pos.find(g.getEdgeDst(e));
+        if (f == pos.end() || ++total > r.m)
+          fail(K + ":not-isomorphic-to-input", "%s: stray or surplus edge",
+               ctx.c_str());
+        got[i].push_back(f->second);
+      }
+    for (uint64_t u = 0; u < r.n; ++u)
+      for (uint64_t p = r.csr.begin(u); p < r.csr.end(u); ++p)
+        want[u].push_back(r.csr.dst[p]);
+    if (total != r.m || wl_colours(got) != wl_colours(want))
+      fail(K + ":not-isomorphic-to-input",
+           "%s: colour refinement tells the graph from the input",
+           ctx.c_str());
+    return false;
+  }
+}
+
+template <class E, class G>
+static void morph_layout(const std::string& L, const Ctx& c, Files<E>& files,
+                         bool full, Adj* observed) {
+  const Ref& r = c.r;
+  for (int ver = 1; ver <= (full ? 2 : 1); ++ver) {
+    if (ver == 2 && !usable(files, 2))
+      continue;
+    std::string K = L + (ver == 2 ? ":readGraph-v2" : ":readGraph");
+    MorphBox<G> box;
+    gg::readGraph(*box, files.fwd(ver));
+    NodeMap<G> nm;
+    if (morph_recover<E>(K, *box, c, nm))
+      morph_checks<E>(K, *box, nm, c);
+  }
+  { // two-phase builder with the aux array in our hands
+    std::string K = L + ":constructNodesFrom+constructEdgesFrom";
+    MorphBox<G> box;
+    G& g = *box;
+    gg::FileGraph f;
+    f.fromFileInterleaved<E>(files.fwd(1));
+    typename G::ReadGraphAuxData aux;
+    g.allocateFrom(f, aux);
+    galois::on_each([&](unsigned tid, unsigned total) {
+      g.constructNodesFrom(f, tid, total, aux);
+    });
+    galois::on_each([&](unsigned tid, unsigned total) {
+      g.constructEdgesFrom(f, tid, total, aux);
+    });
+    NodeMap<G> nm;
+    for (uint64_t u = 0; u < r.n; ++u)
+      nm.add(K, aux[u]);
+    morph_checks<E>(K, g, nm, c);
+    if (observed)
+      *observed = dump_out<E>(K, g, nm, r.m);
+  }
+  if (full) { // createNode + addMultiEdge, nodes created by all threads
+    std::string K = L + ":createNode+addMultiEdge";
+    MorphBox<G> box;
+    G& g = *box;
+    std::vector<typename G::GraphNode> nd(r.n, nullptr);
+    galois::on_each([&](unsigned tid, unsigned total) {
+      auto br = galois::block_range((uint64_t)0, r.n, tid, total);
+      for (uint64_t u = br.first; u < br.second; ++u)
+        nd[u] = g.createNode((int)r.outdeg(u));
+    });
+    for (uint64_t i = 0; i < r.m; ++i) {
+      if constexpr (std::is_void<E>::value)
+        g.addMultiEdge(nd[r.el[i].first], nd[r.el[i].second],
+                       galois::MethodFlag::UNPROTECTED);
+      else
+        g.addMultiEdge(nd[r.el[i].first], nd[r.el[i].second],
+                       galois::MethodFlag::UNPROTECTED, EV<E>::make(i));
+    }
+    NodeMap<G> nm;
+    for (uint64_t u = 0; u < r.n; ++u)
+      nm.add(K, nd[u]);
+    morph_checks<E>(K, g, nm, c);
+  }
+}
+
+template <class E>
+static void morph_run(const Ctx& c) {
+  Files<E> files(c.r);
+  bool full = full_programme(c);
+  Adj obs;
+  typedef gg::LC_Morph_Graph<int, E> G0;
+  morph_layout<E, G0>("LC_Morph_Graph", c, files, full, &obs);
+  if (full) {
+    morph_layout<E, typename G0::template with_numa_alloc<true>::type>(
+        "LC_Morph_Graph<numa>", c, files, false, nullptr);
+    morph_layout<E, typename G0::template with_no_lockable<true>::type>(
+        "LC_Morph_Graph<no_lockable>", c, files, false, nullptr);
+  }
+  finish_run(c, obs);
+}
+
+// ===========================================================================
+// LC_Adaptor_Graph over user-supplied CSR arrays (as in test/lc-adaptor.cpp)
+// ===========================================================================
+template <class E>
+struct AdStore {
+  typedef std::vector<E> type;
+};
+template <>
+struct AdStore<void> {
+  typedef std::vector<char> type;
+};
+
+template <class E, bool NoLock>
+class AdaptorCSR
+    : public gg::LC_Adaptor_Graph<int, E, AdaptorCSR<E, NoLock>, int,
+                                  boost::counting_iterator<int>,
+                                  const uint32_t*, NoLock> {
+  typedef gg::LC_Adaptor_Graph<int, E, AdaptorCSR<E, NoLock>, int,
+                               boost::counting_iterator<int>, const uint32_t*,
+                               NoLock>
+      Super;
+
+public:
+  std::vector<uint64_t> outIdx;
+  std::vector<uint32_t> outs;
+  std::vector<int> nodeData;
+  typename AdStore<E>::type edgeData;
+
+  explicit AdaptorCSR(const Ref& r)
+      : outIdx(r.csr.outIdx), outs(r.csr.dst.begin(), r.csr.dst.end()),
+        nodeData(r.n, 0) {
+    outs.push_back(0); // so that &outs[m] is a valid address
+    if constexpr (!std::is_void<E>::value)
+      for (uint64_t p = 0; p < r.m; ++p)
+        edgeData.push_back(EV<E>::make(r.csr.orig[p]));
+  }
+  typedef typename Super::GraphNode GraphNode;
+  typedef typename Super::edge_iterator edge_iterator;
+  typedef typename Super::iterator iterator;
+  size_t get_id(GraphNode n) const { return n; }
+  typename Super::node_data_reference get_data(GraphNode n) {
+    return nodeData[n];
+  }
+  typename Super::edge_data_reference get_edge_data(edge_iterator e) {
+    if constexpr (std::is_void<E>::value)
+      return {};
+    else
+      return edgeData[e - outs.data()];
+  }
+  GraphNode get_edge_dst(edge_iterator e) { return (int)*e; }
+  int get_size() const { return (int)outIdx.size(); }
+  int get_size_edges() const { return (int)outs.size() - 1; }
+  iterator get_begin() const { return iterator(0); }
+  iterator get_end() const { return iterator((int)outIdx.size()); }
+  edge_iterator get_edge_begin(GraphNode n) {
+    return outs.data() + (n == 0 ? 0 : outIdx[n - 1]);
+  }
+  edge_iterator get_edge_end(GraphNode n) { return outs.data() + outIdx[n]; }
+};
+
+template <class E, class G>
+static Adj adaptor_layout(const std::string& K, const Ctx& c) {
+  const Ref& r    = c.r;
+  std::string ctx = c.str();
+  G g(r);
+  if (g.size() != r.n || g.sizeEdges() != r.m)
+    fail(K + ":wrong-size", "%s: size()=%llu sizeEdges()=%llu", ctx.c_str(),
+         (unsigned long long)g.size(), (unsigned long long)g.sizeEdges());
+  NodeMap<G> nm = positional_map(K, g, r.n, ctx);
+  csr_ids_are_file_ids(K, nm, ctx);
+  Adj got = dump_out<E>(K, g, nm, r.m);
+  compare_adj(K, "out-edges", got, expect_adj<E>(r.csr), true, ctx);
+  for (uint64_t u = 0; u < r.n; ++u) {
+    uint64_t k = 0;
+    for (auto e : g.out_edges((int)u)) {
+      (void)e;
+      ++k;
+    }
+    if (k != r.outdeg(u))
+      fail(K + ":out_edges()-range-wrong-length", "%s: node %llu", ctx.c_str(),
+           (unsigned long long)u);
+  }
+  check_local_ranges(K, g, nm, ctx);
+  return got;
+}
+
+template <class E>
+static void adaptor_run(const Ctx& c) {
+  Adj obs = adaptor_layout<E, AdaptorCSR<E, false>>("LC_Adaptor_Graph", c);
+  adaptor_layout<E, AdaptorCSR<E, true>>("LC_Adaptor_Graph<no_lockable>", c);
+  finish_run(c, obs);
+}
+
+// ===========================================================================
+// Documented ways to build a graph that do not instantiate.  A template that
+// cannot be instantiated cannot be put in this file, so these are compiled on
+// the side (g++ -fsyntax-only against the same tree) -- with controls that
+// must compile, so that a broken probe environment is not mistaken for a
+// defect.
+// ===========================================================================
+struct Probe {
+  const char* key; // "" for a control
+  const char* what;
+  const char* code;
+};
+static const Probe PROBES[] = {
+    {"", "control: readGraph(LC_CSR_Graph<int,unsigned>)",
+     "#include \"galois/graphs/LCGraph.h\"\n"
+     "void f(const std::string& s){ galois::graphs::LC_CSR_Graph<int,unsigned> "
+     "g; galois::graphs::readGraph(g, s); }\n"},
+    {"", "control: LC_InlineEdge_Graph allocateFrom+constructFrom",
+     "#include \"galois/graphs/LCGraph.h\"\n"
+     "void f(galois::graphs::FileGraph& fg){ "
+     "galois::graphs::LC_InlineEdge_Graph<int,unsigned> g; g.allocateFrom(fg); "
+     "g.constructFrom(fg, 0u, 1u); }\n"},
+    {"LC_InlineEdge_Graph:readGraph:does-not-compile",
+     "readGraph(LC_InlineEdge_Graph<int,unsigned>&, filename)",
+     "#include \"galois/graphs/LCGraph.h\"\n"
+     "void f(const std::string& s){ "
+     "galois::graphs::LC_InlineEdge_Graph<int,unsigned> g; "
+     "galois::graphs::readGraph(g, s); }\n"},
+    {"LC_CSR_Graph:callback-constructor:does-not-compile",
+     "LC_CSR_Graph(numNodes, numEdges, edgeNum, edgeDst, edgeData)",
+     "#include \"galois/graphs/LC_CSR_Graph.h\"\n"
+     "void f(){ galois::graphs::LC_CSR_Graph<int,unsigned> g(3u, 2ull, "
+     "[](size_t){ return (uint64_t)1; }, [](size_t, uint64_t){ return 0u; }, "
+     "[](size_t, uint64_t){ return 5u; }); }\n"},
+    {"LC_Morph_Graph<out_of_line_lockable>:readGraph:does-not-compile",
+     "readGraph(LC_Morph_Graph<int,unsigned>::with_out_of_line_lockable<true>"
+     "::type&, filename)",
+     "#include \"galois/graphs/LCGraph.h\"\n"
+     "void f(const std::string& s){ "
+     "galois::graphs::LC_Morph_Graph<int,unsigned>::with_out_of_line_lockable<"
+     "true>::type g; galois::graphs::readGraph(g, s); }\n"},
+    {"LC_InOut_Graph<LC_InlineEdge_Graph>:readGraph:does-not-compile",
+     "readGraph(LC_InOut_Graph<LC_InlineEdge_Graph<int,unsigned>>&, file, "
+     "transposeFile)",
+     "#include \"galois/graphs/LCGraph.h\"\n"
+     "void f(const std::string& s){ "
+     "galois::graphs::LC_InOut_Graph<galois::graphs::LC_InlineEdge_Graph<int,"
+     "unsigned>> g; galois::graphs::readGraph(g, s, s); }\n"},
+};
+static const size_t NPROBES = sizeof(PROBES) / sizeof(PROBES[0]);
+
+static std::string compile_probe(const Probe& p) { // "" = compiles
+  const char* repo = getenv("VERIF_REPO");
+  std::string R    = repo ? repo : "/repo";
+  char src[256];
+  snprintf(src, sizeof src, "%s/%d-c11-probe.cpp", grf::tmp_dir(),
+           (int)getpid());
+  FILE* f = fopen(src, "w");
+  if (!f)
+    return "cannot write probe source";
+  fputs(p.code, f);
+  fclose(f);
+  std::string cmd =
+      "g++ -std=c++17 -fsyntax-only -w -DGALOIS_USE_SCHED_SETAFFINITY "
+      "-DGALOIS_HAVE_PTHREAD -I/verif/build/gen/include -I" +
+      R + "/libgalois/include -I" + R + "/libsupport/include " + src +
+      " 2>&1";
+  FILE* pp = popen(cmd.c_str(), "r");
+  if (!pp) {
+    unlink(src);
+    return "cannot run g++";
+  }
+  std::string out, firsterr;
+  char line[1024];
+  while (fgets(line, sizeof line, pp)) {
+    if (firsterr.empty() && strstr(line, "error"))
+      firsterr = line;
+    if (out.size() < 4000)
+      out += line;
+  }
+  int rc = pclose(pp);
+  unlink(src);
+  if (rc == 0)
+    return "";
+  if (firsterr.empty())
+    firsterr = out.substr(0, 300);
+  while (!firsterr.empty() && firsterr.back() == '\n')
+    firsterr.pop_back();
+  return firsterr;
+}
+
+static sx::EnumCase probe_case() {
+  sx::EnumCase c;
+  c.name  = "documented builders instantiate (g++ -fsyntax-only probes)";
+  c.count = [](bool) { return (uint64_t)NPROBES; };
+  c.run   = [](uint64_t idx, bool) {
+    const Probe& p  = PROBES[idx];
+    std::string err = compile_probe(p);
+    sx::outcome(sx::hash_str(p.what) ^ (err.empty() ? 1 : 2));
+    sx::mark_nontrivial();
+    if (err.empty())
+      return;
+    if (!p.key[0])
+      fail("compile-probe:control-failed",
+           "a snippet that must compile does not (probe environment broken?)"
+           ": %s: %s",
+           p.what, err.c_str());
+    fail(p.key, "%s does not compile: %s", p.what, err.c_str());
+  };
+  c.describe = [](uint64_t idx, bool) { return std::string(PROBES[idx].what); };
+  return c;
+}
+
+// ===========================================================================
 // Case plumbing
 // ===========================================================================
 typedef void (*RunFn)(const Ctx&);
@@ -713,7 +1659,6 @@ static sx::EnumCase small_case(const Layout& L) {
     rt();
     Decoded d = decode_cfg(L, idx);
     Ref r     = small_decode(d.gi, small_maxm(th));
-    CpuLease lease(d.T);
     galois::setActiveThreads(d.T);
     Ctx ctx{r, d.T, ENAMES[d.E], th};
     L.fn[d.E](ctx);
@@ -739,7 +1684,6 @@ static sx::EnumCase family_case(const std::vector<Layout>& Ls) {
     int T = 1 + (idx / 4) % 4;
     uint64_t l  = (idx / 16) % Ls.size();
     uint64_t gi = idx / 16 / Ls.size();
-    CpuLease lease(T);
     galois::setActiveThreads(T);
     Ctx ctx{family()[gi], T, ENAMES[E], th};
     Ls[l].fn[E](ctx);
@@ -770,6 +1714,12 @@ int main(int argc, char** argv) {
                      FN4(csr_units_run), {0}, ALLT});
   layouts.push_back({"LC_CSR_Graph readGraphFromGRFile v1/v2",
                      FN4(csr_grfile_run), ALLE, {1, 2}});
+  layouts.push_back({"LC_CSR_CSC_Graph", FN4(csc_run), ALLE, ALLT});
+  layouts.push_back({"LC_InOut_Graph", FN4(inout_run), ALLE, ALLT});
+  layouts.push_back({"LC_Linear_Graph", FN4(linear_run), ALLE, ALLT});
+  layouts.push_back({"LC_InlineEdge_Graph", FN4(inline_run), ALLE, ALLT});
+  layouts.push_back({"LC_Morph_Graph", FN4(morph_run), ALLE, ALLT});
+  layouts.push_back({"LC_Adaptor_Graph", FN4(adaptor_run), ALLE, ALLT});
   std::vector<sx::EnumCase> en;
   std::vector<Layout> fam;
   for (auto& L : layouts) {
@@ -778,5 +1728,6 @@ int main(int argc, char** argv) {
       fam.push_back(L);
   }
   en.push_back(family_case(fam));
+  en.push_back(probe_case());
   return sx::sx_main(argc, argv, "C11", {}, en);
 }
